@@ -130,4 +130,82 @@ theorem chunkRangesNat_full (size cs off ov : Nat) (align : Bool) (hsz : 0 < siz
       · simp only [hm]; omega
       · exact (hfull r hr).2
 
+/-- the only multiple of `step` in `(off, off + step]` is `off - off % step + step` -/
+theorem next_multiple_unique (step off s2 : Nat) (hstep : 0 < step) (hmod : s2 % step = 0)
+    (h1 : off < s2) (h2 : s2 ≤ off + step) : s2 = off + step - off % step := by
+  obtain ⟨k, hk⟩ := Nat.dvd_of_mod_eq_zero hmod
+  have hq := Nat.div_add_mod off step
+  have hm : off % step < step := Nat.mod_lt _ hstep
+  generalize off / step = q at hq
+  generalize off % step = m at hq hm ⊢
+  have hk1 : q < k := by
+    apply Classical.byContradiction
+    intro hn
+    have : step * k ≤ step * q := Nat.mul_le_mul_left _ (by omega)
+    omega
+  have hk2 : k < q + 2 := by
+    apply Classical.byContradiction
+    intro hn
+    have : step * (q + 2) ≤ step * k := Nat.mul_le_mul_left _ (by omega)
+    rw [Nat.mul_add] at this
+    omega
+  have : k = q + 1 := by omega
+  subst this
+  rw [Nat.mul_add] at hk
+  omega
+
+/-- with `align=True` too the laws determine the output, once "on aligned boundaries" is read as: the first
+    range is cut at the first boundary (`first.2 ≤ off + (cs - off % step)`), every later range starts on a
+    multiple of the step, the second one on the first multiple after `off` -/
+theorem chunkRangesNat_unique_aligned (size cs off ov : Nat) (hov : ov < cs) (out : List (Nat × Nat))
+    (hne : out ≠ [])
+    (hhead : out.head?.map (·.1) = some off)
+    (hchain : ∀ ab ∈ out.zip out.tail, ab.2.1 + ov = ab.1.2)
+    (haligned : ∀ r ∈ out.tail, r.1 % (cs - ov) = 0)
+    (hsecond : ∀ r, out.tail.head? = some r → off < r.1 ∧ r.1 ≤ off + (cs - ov))
+    (hfirst : ∀ r, out.head? = some r → r.2 ≤ off + (cs - off % (cs - ov)) ∧ (out.tail ≠ [] → r.2 < off + size))
+    (hfull : ∀ r ∈ out.tail.dropLast, r.2 = r.1 + cs ∧ r.2 < off + size)
+    (hlast : out.getLast?.map (·.2) = some (off + size))
+    (hlastlen : ∀ r, out.getLast? = some r → r.1 < r.2 ∧ r.2 ≤ r.1 + cs) :
+    out = chunkRangesNat size cs off ov true := by
+  have hc := align_cond cs off ov hov
+  have hmodlt : off % (cs - ov) < cs - ov := Nat.mod_lt _ (by omega)
+  unfold chunkRangesNat
+  simp only [Bool.true_and, hc, ne_eq, not_false_eq_true, decide_true, ↓reduceIte]
+  cases out with
+  | nil => exact absurd rfl hne
+  | cons r rest =>
+    have hr1 : r.1 = off := by simpa using hhead
+    have hf := hfirst r (by simp)
+    cases rest with
+    | nil =>
+      have hr2 : r.2 = off + size := by simpa using hlast
+      have hend : off + size ≤ off + (cs - off % (cs - ov)) := by omega
+      have hm : min (off + (cs - off % (cs - ov))) (off + size) = off + size := by omega
+      simp only [hend, ↓reduceIte, hm]
+      congr 1
+      exact Prod.ext hr1 hr2
+    | cons r2 rest' =>
+      have hch := hchain (r, r2) (by simp)
+      simp only at hch
+      have hal := haligned r2 (by simp)
+      have hsec := hsecond r2 (by simp)
+      have hlt := hf.2 (by simp)
+      have hs2 := next_multiple_unique (cs - ov) off r2.1 (by omega) hal hsec.1 hsec.2
+      have hend : ¬ off + size ≤ off + (cs - off % (cs - ov)) := by omega
+      have hm : min (off + (cs - off % (cs - ov))) (off + size) = off + (cs - off % (cs - ov)) := by omega
+      simp only [hend, ↓reduceIte, hm]
+      have hlaws : CrLaws (off + size) cs ov (off + (cs - off % (cs - ov)) - ov) (r2 :: rest') := {
+        ne := by simp
+        head := by simp; omega
+        chain := fun ab hab => hchain ab (by
+          simp only [List.tail_cons, List.zip_cons_cons, List.mem_cons] at hab ⊢
+          exact Or.inr hab)
+        full := fun x hx => hfull x (by simpa using hx)
+        last := by rwa [List.getLast?_cons_cons] at hlast
+        lastlen := fun x hx => hlastlen x (by rw [List.getLast?_cons_cons]; exact hx) }
+      rw [← crLoop_unique (off + size) cs ov hov (r2 :: rest') _ size hlaws (by omega)]
+      congr 1
+      exact Prod.ext hr1 (by simp; omega)
+
 end C09
